@@ -712,11 +712,42 @@ def _r3_filter(ctx):
         _emptiness(ctx, f, g, coll)
 
 
+def _stable_temp(f, g, e: ast.AST, nid: int, coll: set[str]) -> ast.AST | None:
+    """The expression a local name read by test node `nid` stands for: its single reaching definition, a plain
+    assignment that dominates the test, provided nothing between that assignment and the test mentions one of the
+    collections `coll` (a length taken before the accumulation is not the length that is returned).  None otherwise."""
+    if not isinstance(e, ast.Name) or e.id in coll or e.id in f.params:
+        return None
+    ds = reaching_defs(f, e.id, e)
+    if len(ds) != 1:
+        return None
+    d = ds[0]
+    if d.kind not in ("assign", "walrus") or d.index is not None or d.value is None:
+        return None
+    dids = _use_ids(g, d.stmt)
+    if not dids or nid in dids or not g.dominates(dids, nid):
+        return None
+    after = g.reach(dids)
+    for m in g.nodes.values():
+        if m.id == nid or m.id in dids or m.id not in after or m.ast is None:
+            continue
+        if any(isinstance(x, ast.Name) and x.id in coll for x in ast.walk(m.ast)) and nid in g.reach([m.id]):
+            return None
+    return d.value
+
+
 def _emptiness(ctx, f, g, coll: set[str]):
-    def mk(nlen: int):
-        def atom(e):
-            def is_len(x):
-                return isinstance(x, ast.Call) and isinstance(x.func, ast.Name) and x.func.id == "len" and len(x.args) == 1 and isinstance(x.args[0], ast.Name) and x.args[0].id in coll
+    def mk(nlen: int, nid: int):
+        def is_len(x, depth=3):
+            if isinstance(x, ast.NamedExpr):
+                x = x.value
+            if isinstance(x, ast.Call) and isinstance(x.func, ast.Name) and x.func.id == "len" and len(x.args) == 1 and isinstance(x.args[0], ast.Name) and x.args[0].id in coll:
+                return True
+            # `n = len(kept)` ... `if n == 0:` -- the operand is read through its reaching definition
+            v = _stable_temp(f, g, x, nid, coll) if depth > 0 else None
+            return v is not None and is_len(v, depth - 1)
+
+        def atom(e, depth=3):
             cp = compare_pair(e)
             if cp is not None:
                 left, op, right = cp
@@ -730,6 +761,10 @@ def _emptiness(ctx, f, g, coll: set[str]):
                 return table.get(type(op))
             if is_len(e) or (isinstance(e, ast.Name) and e.id in coll):
                 return nlen > 0
+            # `empty = len(kept) == 0` / `empty = not kept` ... `if empty:` -- the whole test in a temporary
+            v = _stable_temp(f, g, e, nid, coll) if depth > 0 else None
+            if v is not None:
+                return fold3(v, lambda x: atom(x, depth - 1))
             return None
         return atom
 
@@ -737,7 +772,7 @@ def _emptiness(ctx, f, g, coll: set[str]):
     for n in g.nodes.values():
         if n.kind != "test":
             continue
-        v0, v1, v2 = fold3(n.ast, mk(0)), fold3(n.ast, mk(1)), fold3(n.ast, mk(4))
+        v0, v1, v2 = fold3(n.ast, mk(0, n.id)), fold3(n.ast, mk(1, n.id)), fold3(n.ast, mk(4, n.id))
         if v0 is not None and v1 is not None and v0 != v1 and v1 == v2:
             found = (n, v0)
             break
@@ -1377,6 +1412,7 @@ _ANY = f"any(({_EVAL} for matching_rule in self.matching_rules))"
 _KEEP_LOOP = f"    for target in targets:\n        if {_ANY}:\n            filtered_targets.append(target)"
 _APPLY = "        targets = await f.get_targets(job, targets)"
 _IMPORT_RANDOM = "import random"
+_EMPTY = "if len(filtered_targets) == 0:"
 _CMP = "        if match != str(job.inputs[input_name].value):"
 _HELPER = "def _input_text(job, port):\n    token = job.inputs[port]\n    return str(token.value)\n"
 _INIT = f"{MBF}.__init__"
@@ -1444,6 +1480,10 @@ VARIANTS = [
       "        token = job.inputs[input_name]\n        if match != str(token):", "R3"),
     V("service not passed to eval", MFILE, f"{MBF}.get_targets", "service=target.service", "service=None", "R3"),
     V("empty result tolerated", MFILE, f"{MBF}.get_targets", "if len(filtered_targets) == 0:", "if len(filtered_targets) < 0:", "R3"),
+    V("empty result tolerated, length in a temporary", MFILE, f"{MBF}.get_targets", _EMPTY, "n = len(filtered_targets)\n    if n < 0:", "R3"),
+    V("temporary holds the length of the input list, not of the kept targets", MFILE, f"{MBF}.get_targets", _EMPTY, "n = len(targets)\n    if n == 0:", "R3"),
+    V("length taken before the accumulation (stale temporary)", MFILE, f"{MBF}.get_targets", _KEEP_LOOP + "\n    " + _EMPTY,
+      "    n = len(filtered_targets)\n" + _KEEP_LOOP + "\n    if n == 0:", "R3"),
     V("non-matching targets kept too", MFILE, f"{MBF}.get_targets", "            filtered_targets.append(target)", "            pass\n        filtered_targets.append(target)", "R3"),
     V("keeping a target also depends on another condition", MFILE, f"{MBF}.get_targets", f"if {_ANY}:", f"if target.service is not None and {_ANY}:", "R3"),
     V("targets without service kept without a matching rule", MFILE, f"{MBF}.get_targets", f"if {_ANY}:", f"if {_ANY} or target.service is None:", "R3"),
@@ -1497,6 +1537,9 @@ VARIANTS = [
     V("tasks built from a temporary", SFILE, f"{SCHED}.schedule", _TASKS, "for target in list(targets)]", None),
     V("operands swapped in the deployment test", MFILE, f"{RULE}.eval", "if deployment != self.deployment:", "if self.deployment != deployment:", None),
     V("emptiness as `not x`", MFILE, f"{MBF}.get_targets", "if len(filtered_targets) == 0:", "if not filtered_targets:", None),
+    V("length into a temporary before the emptiness test (testtemp)", MFILE, f"{MBF}.get_targets", _EMPTY, "_sf_l1 = len(filtered_targets)\n    if _sf_l1 == 0:", None),
+    V("whole emptiness test into a temporary", MFILE, f"{MBF}.get_targets", _EMPTY, "n = len(filtered_targets)\n    empty = not n\n    if empty:", None),
+    V("length bound by a walrus in the test", MFILE, f"{MBF}.get_targets", _EMPTY, "if (n := len(filtered_targets)) == 0:", None),
     V("logging added to eval", MFILE, f"{RULE}.eval", "    return True", "    logger.debug('matched')\n    return True", None),
     V("match value into a local first", MFILE, f"{RULE}.eval", "        if match != str(job.inputs[input_name].value):",
       "        actual = str(job.inputs[input_name].value)\n        if match != actual:", None),
